@@ -1128,6 +1128,11 @@ def fixup_strided_conv(op: Operation, arch, nng):
     if op.op_index != 0 and stride_x < 4:
         return op
 
+    # With a single output column the stride width is never applied, there is nothing to optimise or fix up (the
+    # re-shaping below does not preserve the padding of such an operator)
+    if op.ofm_shapes[0].width == 1:
+        return op
+
     resize_factor, final_stride = calc_resize_factor(ifm_shape.width, stride_x)
 
     def calc_filter_padding(
